@@ -602,7 +602,7 @@ def sequence_case(sh, i):
 
 
 def run(sh):
-    n = 510 if sh.tier == 'quick' else 10200
+    n = 510 if sh.tier == 'quick' else 90000
     for i in sh.share(n):
         k = i % 3
         if k == 0:
